@@ -87,6 +87,7 @@ pub fn isolate<S: Serialize + Clone + Send + 'static>(
                     let step = crate::harness::CURRENT_STEP_SHARED.lock().map(|g| g.clone()).unwrap_or_default();
                     // leak the blocked thread
                     std::mem::forget(handle);
+                    crate::harness::HANGS.fetch_add(1, Ordering::Relaxed);
                     if check == "c02" {
                         // a call that never returns is C01's / C07's business, not a memory-safety report
                         stats.probe("call_never_returned(ignored_for_C02)");
